@@ -178,6 +178,10 @@ def check(run):
     ft = repo.func(K.PY_U, 'front')
     conds = [norm(st.test).replace(' ', '') for st, _ in walk(ft.node) if isinstance(st, ast.If)]
     run.check(conds == ['g[2*i]!=0org[2*i+1]!=0'], 'R11.resample', ft, 'front', 'front returns the first site with x != 0 or z != 0 (found %s)' % conds)
+    # the diagonalisation used by the sampler mirrors every emitted generator on both tracked strings
+    from .C18 import diag_kernel
+    for rel in (K.PY_U, K.TC_U):
+        diag_kernel(run, repo.func(rel, 'pauli_diagonalize2'), ['g1', 'g2'])
     # samplers
     for rel in (K.PY_U, K.TC_U):
         f = repo.func(rel, 'random_clifford.random_clifford_')
@@ -232,6 +236,7 @@ def check(run):
     run.floor('R10.undo', 4)
     run.floor('R16', 3)
     run.floor('R12.rcc', 8)
+    run.floor('R7.mirror', 6)
     run.decide('fair draw sites, 2*bit signs, commutation-flip normal form, sampler structure with live un-rotation, fresh random map '
                'per call and never cached, rcc gate patterns')
     run.decline('validity of sampled tables by construction and uniformity over the Clifford group (distributional facts); '
